@@ -100,6 +100,9 @@ def emit_tu(items):
 
 STACK_SITE = 'site:context_parse/cvector-stack@cstring_buffer'
 
+def _short(b):
+    return repr(b) if len(b) <= 80 else '%r...(%d bytes)' % (b[:40], len(b))
+
 def worker(spec):
     try:
         return _worker(spec)
@@ -142,7 +145,8 @@ def _worker(spec):
     items = []
     for gi, g in enumerate(gs):
         tb = ref_lr1.build(g)
-        items.append((g, pick_inputs(g, tb, rnd, spec['n_inputs']), gi % 3 == 2))
+        if 'explicit_inputs' in spec: items.append((g, [(bytes.fromhex(h), 0) for h in spec['explicit_inputs'][gi]], False))
+        else: items.append((g, pick_inputs(g, tb, rnd, spec['n_inputs']), gi % 3 == 2))
     src = emit_tu(items)
     lines = src.split('\n')
     results = {}
@@ -150,7 +154,8 @@ def _worker(spec):
         cur = src; exe = None
         for attempt in range(6):
             try:
-                exe = common.build(cur, fl, name='ct'); break
+                # long literals: clang's default fold-expression nesting limit (256) is a compiler knob, not a library property
+                exe = common.build(cur, fl, name='ct', extra=(['-fbracket-depth=8192'] if fl == 'clang' and spec.get('long_literals') else [])); break
             except common.BuildError as e:
                 # map the diagnostics to a case through the line numbers of the CASE markers, report it, neutralise it and retry
                 cl = cur.split('\n'); hit = None
@@ -162,7 +167,7 @@ def _worker(spec):
                 if hit:
                     g, inputs, ctx = items[hit[0]]; d, opt = inputs[hit[1]]
                     keys = ['input:' + common.sha(g.key(), d, str(opt))[:16]] + ([STACK_SITE] if 'capacity' in e.diag and stack_finding_applies(g, ref_lr1.build(g), d, opt) else [])
-                    out['viol'].append((keys, 'grammar %s input %r options %d: parsing during constant evaluation is rejected by %s: %s' % (g.text(), d, opt, fl, e.diag[:300]),
+                    out['viol'].append((keys, 'grammar %s input %s options %d: parsing during constant evaluation is rejected by %s: %s' % (g.text(), _short(d), opt, fl, e.diag[:300]),
                                         {'grammar': g.to_json(), 'input': d.hex(), 'opt': opt, 'compiler': fl, 'diag': e.diag[:1500]}))
                     cl[hit[2]] = 'constexpr long c%d = -222; /*CASE %d:%d SKIPPED*/' % (hit[1], hit[0], hit[1])
                     cur = '\n'.join(cl)
@@ -205,10 +210,10 @@ def _worker(spec):
             if any(threw for _, (_, _, threw) in vals) or -111 in allv:
                 msg = next((threw for _, (_, _, threw) in vals if threw), '')
                 if 'capacity' in (msg or '') and stack_finding_applies(g, tb, d, opt): keys.append(STACK_SITE)
-                out['viol'].append((keys, 'grammar %s input %r options %d: a run-time parse threw (%s); results %s' % (g.text(), d, opt, msg, vals[0][1][0] if vals else None), {'grammar': g.to_json(), 'input': d.hex(), 'opt': opt}))
+                out['viol'].append((keys, 'grammar %s input %s options %d: a run-time parse threw (%s); results %s' % (g.text(), _short(d), opt, msg, vals[0][1][0] if vals else None), {'grammar': g.to_json(), 'input': d.hex(), 'opt': opt}))
             elif len(allv) > 1:
-                out['viol'].append((keys, 'grammar %s input %r options %d (%s): results differ between constant evaluation / buffer kinds / construction modes / compilers: %s (order: constexpr; constexpr-built parser x {cstring,string,string_view,user}; run-time-built parser x same)' % (
-                    g.text(), d, opt, kind, [(fl, v) for fl, (v, cb, t) in vals]), {'grammar': g.to_json(), 'input': d.hex(), 'opt': opt}))
+                out['viol'].append((keys, 'grammar %s input %r options %d (%s): results differ between constant evaluation / buffer kinds / construction modes / compilers: %s (order: constexpr; constexpr-built parser x {cstring,string,string_view,user}; run-time-built parser x same)'.replace('input %r', 'input %s') % (
+                    g.text(), _short(d), opt, kind, [(fl, v) for fl, (v, cb, t) in vals]), {'grammar': g.to_json(), 'input': d.hex(), 'opt': opt}))
             elif vals and ((-987654321 not in allv) != ex.ok):
                 C['acceptance_disagreements_left_to_C01'] += 1
             for fl, (v, cb, threw) in vals:
